@@ -77,9 +77,9 @@ def value_pool(interp, model, name):
         return [("utf-8", "utf-8"), ("cp1252", "cp1252"), ("no-such-encoding", "invalid"), ("hex", "invalid"), ("rot13", "invalid"),
                 ("base64", "invalid"), ("utf-8\0", "invalid")]
     if name == "header":
-        return [("0", 0), ("3", 3), ("-1", "invalid"), ("x", "invalid"), ("1_0", "invalid")]
+        return [("0", 0), ("3", 3), ("-1", "invalid"), ("x", "invalid"), ("1_0", "invalid"), ("Infinity", "invalid"), ("1e999", "invalid"), ("NaN", "invalid")]
     if name == "sheet":
-        return [("1", 1), ("2", 2), ("0", "invalid"), ("-1", "invalid"), ("x", "invalid"), ("1_0", "invalid")]
+        return [("1", 1), ("2", 2), ("0", "invalid"), ("-1", "invalid"), ("x", "invalid"), ("1_0", "invalid"), ("Infinity", "invalid"), ("NaN", "invalid")]
     if name == "decimal_separator":
         return [(v, v) for v in fold("_VALID_DECIMAL_SEPARATORS")] + [(";", "invalid"), ("", "invalid")]
     if name == "thousands_separator":
@@ -96,7 +96,9 @@ def value_pool(interp, model, name):
     if name == "line_delimiter":
         return [("lf", "\n"), ("CR", "\r"), ("CrLf", "\r\n"), ("any", "any"), ("none", "none-special"), ("foo", "invalid")]
     if name == "item_delimiter":
-        return [(";", ";"), ("|", "|"), ("a", "a"), ("59", ";"), ("0x3b", ";"), ("Tab", "\t"), ('";"', ";"), ("4_4", "invalid"), ("0x2_c", "invalid")]
+        return [(";", ";"), ("|", "|"), ("a", "a"), ("59", ";"), ("0x3b", ";"), ("Tab", "\t"), ('";"', ";"), ("4_4", "invalid"), ("0x2_c", "invalid"),
+                # "given literally": one character that is no ASCII digit is itself - also when Unicode files it under the digits
+                ("\u00b2", "\u00b2"), ("\u0663", "\u0663"), ("7", "\x07")]
     if name == "allowed_characters":
         return [("<range>", "range"), ("<broken range>", "invalid")]
     return [("x", "invalid")]
